@@ -1,3 +1,4 @@
+import PoaVerif.Facts
 import PoaVerif.Model.Spec
 import PoaVerif.Lemmas.EndBlock
 import PoaVerif.Lemmas.RunRefine
@@ -15,6 +16,14 @@ import PoaVerif.Witness.D6
 -/
 namespace PoaVerif.Props.C02
 open App
+
+/-- Tie A side condition: in the EndBlocker order x/gov comes before x/poa and x/staking.  Messages of passed governance
+    proposals (the default PoA admin is the gov account) are executed by x/gov's EndBlocker; the model — and the property
+    — place every admin operation of a block before x/staking's EndBlocker computes that block's validator updates. -/
+theorem facts_endblock_order :
+    Generated.endBlockers.idxOf "govtypes.ModuleName" < Generated.endBlockers.idxOf "poa.ModuleName" ∧
+    Generated.endBlockers.idxOf "poa.ModuleName" < Generated.endBlockers.idxOf "stakingtypes.ModuleName" ∧
+    Generated.endBlockers.idxOf "stakingtypes.ModuleName" < Generated.endBlockers.length := by decide
 
 /-- the witness histories are realistic: well-formed genesis, votes taken from the sets the run produced -/
 theorem d1_realistic : Realistic genEnv Witness.D1.g Witness.D1.blocks
